@@ -221,7 +221,8 @@ fn parse_array(data: &[u8]) -> Result<Option<(RespFrame, usize)>> {
     }
     
     let len = len as usize;
-    let mut elements = Vec::with_capacity(len);
+    // Reserve for what can actually be present, never for a declared length alone
+    let mut elements = Vec::with_capacity(len.min(data.len() - header_consumed));
     let mut total_consumed = header_consumed;
     
     for _ in 0..len {
@@ -286,7 +287,7 @@ fn parse_map(data: &[u8]) -> Result<Option<(RespFrame, usize)>> {
     let len = len_str.parse::<usize>()
         .map_err(|_| FerrousError::Protocol("Invalid map length".into()))?;
     
-    let mut pairs = Vec::with_capacity(len);
+    let mut pairs = Vec::with_capacity(len.min(data.len() - header_consumed));
     let mut total_consumed = header_consumed;
     
     for _ in 0..len {
@@ -326,7 +327,7 @@ fn parse_set(data: &[u8]) -> Result<Option<(RespFrame, usize)>> {
     let len = len_str.parse::<usize>()
         .map_err(|_| FerrousError::Protocol("Invalid set length".into()))?;
     
-    let mut elements = Vec::with_capacity(len);
+    let mut elements = Vec::with_capacity(len.min(data.len() - header_consumed));
     let mut total_consumed = header_consumed;
     
     for _ in 0..len {
